@@ -82,6 +82,13 @@ struct Layout {
     /// an answer and is never injected); used by the tiers that inject failing calls
     #[serde(default)]
     err_kind: u8,
+    /// re-deliveries: (source selector, destination selector) — an exact copy of an update
+    /// that an earlier segment holds is flushed again into a later segment, as happens when
+    /// gossip or anti-entropy hands a node a delta it already has. A copy changes nothing
+    /// (merge is idempotent), so recovery must return the same state with or without it, before
+    /// and after every compaction pass.
+    #[serde(default)]
+    redeliver: Vec<(u16, u16)>,
 }
 
 type Persistence = StreamingPersistence<TraceObjectStore, SimulatedClock>;
@@ -129,12 +136,32 @@ struct Env {
     image: Image,
     /// deltas of every segment ever written, by id
     seg_deltas: BTreeMap<u64, Vec<ReplicationDelta>>,
+    /// exact copies of earlier updates placed in later segments
+    redelivered: usize,
 }
 
 /// Build the layout through the production writers.
 fn setup(l: &Layout) -> Result<Env, String> {
     let mut segs = l.segments.clone();
     uniquify(segs.iter_mut().flat_map(|s| s.iter_mut()), false);
+    // re-deliveries are added after the stamps were made unique: an exact copy, later segment
+    let n_segs = segs.len();
+    let mut redelivered = 0usize;
+    for &(src, dst) in &l.redeliver {
+        let positions: Vec<(usize, usize)> =
+            segs.iter().enumerate().flat_map(|(i, s)| (0..s.len()).map(move |j| (i, j))).collect();
+        if positions.is_empty() {
+            break;
+        }
+        let (i, j) = positions[(src as usize * positions.len()) >> 16];
+        if i + 1 >= n_segs {
+            continue;
+        }
+        let to = i + 1 + ((dst as usize * (n_segs - i - 1)) >> 16);
+        let copy = segs[i][j].clone();
+        segs[to].push(copy);
+        redelivered += 1;
+    }
     let store = TraceObjectStore::new();
     let arc = Arc::new(store.clone());
     let mut p = open(&arc)?;
@@ -185,6 +212,7 @@ fn setup(l: &Layout) -> Result<Env, String> {
     Ok(Env {
         image: store.image(),
         seg_deltas,
+        redelivered,
     })
 }
 
@@ -496,6 +524,7 @@ fn compaction_pass(
     let env_view = Env {
         image: image.clone(),
         seg_deltas: seg_deltas.clone(),
+        redelivered: 0,
     };
     let before = recover_image(image).map_err(|e| format!("before compaction: {}", e))?;
     let store = TraceObjectStore::from_image(image.clone());
@@ -720,6 +749,9 @@ fn compaction_pass(
 /// recovery compared across every pass.
 fn check_layout(l: &Layout, ctx: &mut CaseCtx<'_>) -> Result<(), String> {
     let env = setup(l)?;
+    if env.redelivered > 0 {
+        ctx.label("redelivered_copy_in_a_later_segment");
+    }
     let mut seg_deltas = env.seg_deltas.clone();
     let mut image = env.image.clone();
     let mut passes = 0u64;
@@ -1332,6 +1364,14 @@ fn ttl() -> impl Strategy<Value = u64> {
     ]
 }
 
+/// none in half of the layouts, otherwise 1–3 exact copies of earlier updates in later segments
+fn redeliveries() -> impl Strategy<Value = Vec<(u16, u16)>> {
+    prop_oneof![
+        1 => Just(Vec::new()),
+        1 => proptest::collection::vec((any::<u16>(), any::<u16>()), 1..4),
+    ]
+}
+
 fn layout(min_segments: usize, max_segments: usize, max_deltas: usize) -> impl Strategy<Value = Layout> {
     (
         proptest::collection::vec(proptest::collection::vec(delta_spec(), 1..max_deltas), min_segments..=max_segments),
@@ -1341,8 +1381,9 @@ fn layout(min_segments: usize, max_segments: usize, max_deltas: usize) -> impl S
         ttl(),
         prop_oneof![Just(250u32), Just(400), Just(700), Just(1 << 20)],
         clock(),
+        redeliveries(),
     )
-        .prop_map(|(segments, checkpoint_prefix, min_seg, max_seg, ttl_ms, target, clock)| Layout {
+        .prop_map(|(segments, checkpoint_prefix, min_seg, max_seg, ttl_ms, target, clock, redeliver)| Layout {
             segments,
             checkpoint_prefix,
             min_seg,
@@ -1351,6 +1392,7 @@ fn layout(min_segments: usize, max_segments: usize, max_deltas: usize) -> impl S
             target,
             clock,
             err_kind: 0,
+            redeliver,
         })
 }
 
@@ -1387,8 +1429,9 @@ fn layout_many() -> impl Strategy<Value = Layout> {
         ttl(),
         prop_oneof![Just(2000u32), Just(1 << 20)],
         clock(),
+        redeliveries(),
     )
-        .prop_map(|(segments, checkpoint_prefix, min_seg, max_seg, ttl_ms, target, clock)| Layout {
+        .prop_map(|(segments, checkpoint_prefix, min_seg, max_seg, ttl_ms, target, clock, redeliver)| Layout {
             segments,
             checkpoint_prefix,
             min_seg,
@@ -1397,6 +1440,7 @@ fn layout_many() -> impl Strategy<Value = Layout> {
             target,
             clock,
             err_kind: 0,
+            redeliver,
         })
 }
 
@@ -1426,6 +1470,7 @@ fn case_kf01() -> Layout {
         target: 1 << 20,
         clock: Clock::Simulated(0),
         err_kind: 0,
+        redeliver: Vec::new(),
     }
 }
 
@@ -1444,6 +1489,7 @@ fn resurrection_layout(clock: Clock, ttl_ms: u64) -> Layout {
         target: 400,
         clock,
         err_kind: 0,
+        redeliver: Vec::new(),
     }
 }
 
@@ -1461,6 +1507,7 @@ fn case_kf04() -> Inter {
             target: 1 << 20,
             clock: Clock::Simulated(0),
             err_kind: 0,
+            redeliver: Vec::new(),
         },
         batch: vec![spec(2, Action::Set { val: 3, pad: 0 }, 1, 3)],
         // compactor loads the manifest, the flush runs completely, the compactor finishes
